@@ -165,7 +165,8 @@ def seed_search(u, K, suffix, record):
     items = [(u, v, K.replay_env(v) if hasattr(K, 'replay_env') else None) for v in seeds]
     for v, rp in zip(seeds, real_replay_batch(items)):
         failed = rp.get('failed') or []
-        if suffix in failed or (suffix.startswith('raises-only') and any(f.startswith('raises-only') for f in failed)):
+        if suffix in failed or (suffix.startswith('raises-only') and any(f.startswith('raises-only') for f in failed)) or \
+                ((suffix.startswith('loop-') or suffix.startswith('decreases')) and failed):
             record['verifier_counter_model'] = record['values']
             record['values'] = v
             record['replay_env'] = K.replay_env(v) if hasattr(K, 'replay_env') else None
@@ -333,7 +334,7 @@ def check_property(pid, tier, seed=0, replay_only=None):
             with open(rpath, 'w') as f:
                 json.dump(record, f, indent=1)
             problems.append((3, 'replay harness failed for %s: %s' % (vc['oid'], json.dumps(rp)[:400])))
-        elif (not replayable or not rp.get('pre_ok', True)) and hasattr(K, 'seeds') and seed_search(u, K, suffix, record):
+        elif (not replayable or not rp.get('pre_ok', True) or suffix.startswith('loop-') or suffix.startswith('decreases')) and hasattr(K, 'seeds') and seed_search(u, K, suffix, record):
             with open(rpath, 'w') as f:
                 json.dump(record, f, indent=1)
             lines.append('VIOLATION property=%s replay=%s obligation=%s' % (pid, rpath, vc['oid']))
